@@ -29,6 +29,8 @@ for dp, dn, fn in sorted(os.walk(pkg)):
             mod = mod[:-9]
         tree = ast.parse(open(path, encoding="utf8").read())
         normalize.strip_noise(tree)
+        normalize.lower_match(tree)
+        normalize.hoist_walrus(tree)
         normalize.canon_shapes(tree)
         normalize.rotate_loops(tree)
         normalize.unwrap_genexp_loops(tree)
